@@ -383,14 +383,14 @@ def run(ctx, rep):
         r = prog.method(clsq, rname)
         n_pairs += 1
         pair(ctx, rep, cls, w, r)
-    rep.floor('D1.keys', 'to_dict/from_dict pairs with explicit key tables', n_pairs, 5)
+    rep.floor('D1.keys', 'to_dict/from_dict pairs with explicit key tables', n_pairs, 3)
     univariate_pair(ctx, rep)
-    d4(ctx, rep)
-    d5(ctx, rep)
-    d6(ctx, rep)
-    d7(ctx, rep)
-    d9(ctx, rep)
-    d8(ctx, rep)
+    rep.guarded('D4.d4', d4, ctx, rep)
+    rep.guarded('D5.d5', d5, ctx, rep)
+    rep.guarded('D6.d6', d6, ctx, rep)
+    rep.guarded('D7.d7', d7, ctx, rep)
+    rep.guarded('D9.d9', d9, ctx, rep)
+    rep.guarded('D8.d8', d8, ctx, rep)
 
 
 def pair(ctx, rep, cls, w, r):
@@ -485,15 +485,19 @@ def univariate_pair(ctx, rep):
         else:
             rep.check('D1.passthrough', sp, stores[0], good,
                       'stores its argument into self._params', 'does not store the given params into self._params')
-    rep.floor('D1.passthrough', '_set_params implementations', n, 1)
+    if n == 0:
+        rep.undecided('D1.passthrough', gp, gp.node.name, 'no method named _set_params found', construct='_set_params')
     # from_dict: pops the tag, hands the rest to _set_params, marks fitted
     dparam = from_dict.params[1]
     calls = [c for c in walk_no_nested(from_dict.node) if isinstance(c, ast.Call) and call_name(c) == '_set_params']
     fitted = [x for x in walk_no_nested(from_dict.node) if isinstance(x, ast.Assign) and any(
         isinstance(t, ast.Attribute) and t.attr == 'fitted' for t in x.targets) and const_value(x.value) is True]
-    rep.check('D1.passthrough', from_dict, calls[0] if calls else from_dict.node.name, bool(calls) and bool(fitted),
-              'hands the remaining params to _set_params and marks the instance fitted',
-              'from_dict does not restore the params / the fitted flag')
+    if not calls:
+        rep.undecided('D1.passthrough', from_dict, from_dict.node.name, 'no call of _set_params in from_dict: how the parameters are restored is not derived')
+    else:
+        rep.check('D1.passthrough', from_dict, calls[0], bool(fitted),
+                  'hands the remaining params to _set_params and marks the instance fitted',
+                  'from_dict does not restore the params / the fitted flag')
     # tag written = tag read
     wt = writer_table(ctx, to_dict)
     reads = reader_keys(ctx, from_dict, dparam)
@@ -601,7 +605,7 @@ def d4(ctx, rep):
                 rep.check('D4.complete', f, node, mentions or a in written,
                           f'constructor option self.{a} is serialised',
                           f'{k.name}: constructor option self.{a} shapes the rebuilt model ({f.short}) but is not serialised: '
-                          'from_dict(to_dict(m)) silently uses the default', construct=f'{k.name}.{a}')
+                          'from_dict(to_dict(m)) silently uses the default', construct=f'{k.name}.{a}', func=k.qualname.replace('copulas.', '', 1))
     rep.extra['config_options_shaping_queries'] = n
 
 
@@ -798,7 +802,7 @@ def d7(ctx, rep):
                                 construct=f'self.{attr} <- {o[1]}')
             if not bad:
                 rep.ok('D7.noedit', m, m.node.name, "the caller's dict is not written", construct=f'def {name}')
-    rep.floor('D7.noedit', 'serialisation methods', n, 14)
+    rep.floor('D7.noedit', 'serialisation methods', n, 8)
 
 
 # ------------------------------------------------------------------- D8 constancy predicate
@@ -831,7 +835,8 @@ def d8(ctx, rep):
         else:
             rep.bad('D8.const', m, bad[0], f'{bad[1]}: fit decides constancy exactly (one unique value), so a non-constant model whose '
                     'parameters fall inside the tolerance is rebuilt as a point mass by from_dict', construct='def _is_constant')
-    rep.floor('D8.const', '_is_constant definitions', n, 1)
+    if n == 0:
+        rep.undecided('D8.const', prog.cls('copulas.univariate.base.Univariate').methods.get('fit') or next(iter(prog.functions.values())), 'Univariate', 'no method named _is_constant found', construct='def _is_constant')
     # fit side: exact test
     cc = prog.method('copulas.univariate.base.Univariate', '_check_constant_value')
     exact = any(isinstance(x, ast.Compare) and len(x.ops) == 1 and isinstance(x.ops[0], ast.Eq) and const_value(x.comparators[0]) == 1
@@ -860,4 +865,4 @@ def d9(ctx, rep):
                     if bad:
                         rep.bad('D9.pickle', m, node, 'a lambda / nested function is stored in the model: pickle.dump(model) fails')
     rep.ok('D9.pickle', 'all model classes', None, f'{n} attribute stores scanned', construct='attribute stores')
-    rep.floor('D9.pickle', 'attribute stores in picklable model classes', n, 40)
+    rep.floor('D9.pickle', 'attribute stores in picklable model classes', n, 10)
